@@ -8,7 +8,8 @@ PROP = {
                    "max-probe encoders covers every recorded displacement, both probe sequences are permutations of the buckets, the insertion "
                    "loop reports 'full' only when all buckets are full. The models are executable and compared with the real bucket classes "
                    "(exhaustively for small probes/tables) on every run; encoder constants are re-extracted from the headers."
-                   ' Both encoders are additionally TRANSLATED from the header text on every run (tools/translate.py: UpdateMaxProbe, pvUpdateMaxProbe with its while loop, pvGetMaxProbe / GetMaxProbe, byte truncations and size_t wrap-around explicit) and the bound theorems are proved for the generated definitions themselves (C13_bound_*_translated; Open2N2 for displacements <= 2^63, above 2^64-2^57 the real decode would wrap).'),
+                   ' Both encoders are additionally TRANSLATED from the header text on every run (tools/translate.py: UpdateMaxProbe, pvUpdateMaxProbe with its while loop, pvGetMaxProbe / GetMaxProbe, byte truncations and size_t wrap-around explicit) and the bound theorems are proved for the generated definitions themselves (C13_bound_*_translated; Open2N2 for displacements <= 2^63, above 2^64-2^57 the real decode would wrap).'
+                   ' In-bucket part of "a present key is always found": BucketOpenN1<1..7, reverse> and BucketOpen8 are modelled at BYTE level (Momo.OpenB: mData with the last slot doubling as count byte, ptCalcShortHash, AddCrt, Remove with its compaction, IsFull / WasFull, the scalar Find loop, the SSE2 movemask of Open8 by the specification of the intrinsics, the 64-bit SWAR expression and its ctz / mask &= mask - 1 loop as written). Proved for every add / remove history, every maxCount 1..7, both item orders, every 64-bit hash code: the byte invariant (occupied slot = short hash of its item, other slots = empty marker / count byte, which no short hash equals); under it Find, for EVERY scan order, only tests occupied slots with the searched short hash, returns a slot iff an accepted matching item exists, and is order-independent when keys are distinct; the SWAR expression equals, for every 8-byte word and short-hash byte, the flag bits of the lanes that match or differ in bit 0 only above a flagged lane (lane-wise borrow analysis of the 64-bit subtraction, no case enumeration of words); the SSE2 variant visits exactly the scalar candidates; the SWAR variant visits a superset (proper for some reachable buckets, C13_open8_swar_not_exact) whose extra members are occupied slots and which yields the scalar result for every predicate consistent with the short hashes. ptCalcShortHash, pvGetState, pvGetShortHash / ptGetItemPtr index, pvGetCount, IsFull, WasFull, the byte writes of AddCrt / Remove, the SWAR mask statements, lane index, loop test and step, the candidate test of the scalar loop and the table of pvCountTrailingZeros15 are TRANSLATED from the headers on every run (tools/trspecs/OpenBytes.py) and the invariant / mask theorems are restated for the generated definitions (C13_open*_translated).'),
     "level_note": ("Trusted: Lean kernel, the three standard axioms, extractor, correspondence harness (g++, -fno-access-control). Modelled not "
                    "verified: the C++ byte layout of mState/mData; 64-bit wrap-around is excluded by the hypothesis p < 2^64 and shown not to occur."),
     "modules": ["Momo.Props.C13"],
@@ -21,16 +22,34 @@ PROP = {
         "Momo.Probe.C13_lookup_examines",
         "Momo.Probe.C13_bound_open2n2_translated",
         "Momo.Probe.C13_bound_openN1_translated",
+        "Momo.OpenB.C13_openbytes_inv_history",
+        "Momo.OpenB.C13_openbytes_inv_meaning",
+        "Momo.OpenB.C13_openbytes_find_every_order",
+        "Momo.OpenB.C13_open8_swar_mask",
+        "Momo.OpenB.C13_open8_swar_flags",
+        "Momo.OpenB.C13_open8_find",
+        "Momo.OpenB.C13_open8_swar_not_exact",
+        "Momo.OpenB.C13_openbytes_inv_history_translated",
+        "Momo.OpenB.C13_open8_find_translated",
     ],
     "harnesses": [
         {"name": "c13_probe", "src": "c13_probe.cpp"},
+        {"name": "c13_openbytes", "src": "c13_openbytes.cpp"},
+        {"name": "c13_openbytes_swar", "src": "c13_openbytes.cpp", "flags": ["-DOB_SWAR"]},
     ],
     "rule": ("enc: every probe 0..2^16 (thorough 2^20) from a fresh state on all 6 Open2N2 and 8 OpenN1/Open8 bucket instantiations, plus random "
              "boundary-biased update sequences up to 2^62 (all 6 orders of 3-element sets); seq: real GetNextBucketIndex enumerated for all homes of "
              "tables 2^0..2^5 and summarised (checksum + distinct count) for 2^6..2^20 (thorough 2^24); fill: real HashSets that cannot grow are filled "
              "until 'Hash table is full', every landing bucket compared with the model's addProbe. distinct_nontrivial counts distinct update "
-             "sequences / (kind,L,home) enumerations / fill rounds."),
+             "sequences / (kind,L,home) enumerations / fill rounds. c13_openbytes (built with SSE2 and, as c13_openbytes_swar, with the SWAR variant of BucketOpen8::Find): real "
+             "BucketOpenN1<1..7, reverse/forward> and BucketOpen8 objects driven through random AddCrt / Remove / Clear / UpdateMaxProbe histories (14 rounds x 60 steps quick, 70 x 120 "
+             "thorough per instantiation; 4x for Open8) with seven short-hash families (all equal; s and s^1; 246/247 = empty marker - 1, - 2; 0/1; any; random codes; special values); after every "
+             "step all maxCount+1 raw bytes, count, IsFull, WasFull and three Find calls (hash codes equal to / neighbouring stored short hashes, arbitrary predicate masks over the slots: returned slot "
+             "and the ordered list of slots on which the predicate was evaluated) are compared with the model; property level: every item found in its slot, absent keys not found, the predicate "
+             "never evaluated on a slot without item, storage order of the items. raw suites: arbitrary bytes written into mData (every lane equal, s/s^1 borrow chains, +-1, 248..255, one matching lane in "
+             "each position, random), Find's candidate set and order compared with the model. distinct_nontrivial there = distinct (instantiation, item count, byte image) states."),
     "runtime_only": [],
-    "not_modelled": ["SSE2 in-bucket search of BucketOpen8 (exercised by the fill suite, not modelled)",
+    "not_modelled": ["the SSE2 intrinsics of BucketOpen8::Find are modelled by their specification (bit j of the movemask = byte j equals the short hash), not translated; MOMO_PREFETCH; big-endian / 32-bit builds",
+                     "std::fill_n of pvSetEmpty (constructor / Clear bytes are compared by the correspondence only)",
                      "placement invariant of the whole table (I2) is part of C01's model"],
 }
